@@ -890,7 +890,7 @@ func (c *DefaultCtx) JSON(data any, ctype ...string) error {
 	c.fasthttp.Response.SetBodyRaw(raw)
 	if len(ctype) > 0 {
 		// handler-supplied: Set replaces CR/LF, SetContentType would store them verbatim
-		c.fasthttp.Response.Header.Set(HeaderContentType, ctype[0])
+		c.fasthttp.Response.Header.Set(HeaderContentType, headerValue(ctype[0]))
 	} else {
 		c.fasthttp.Response.Header.SetContentType(MIMEApplicationJSON)
 	}
@@ -909,7 +909,7 @@ func (c *DefaultCtx) CBOR(data any, ctype ...string) error {
 	c.fasthttp.Response.SetBodyRaw(raw)
 	if len(ctype) > 0 {
 		// handler-supplied: Set replaces CR/LF, SetContentType would store them verbatim
-		c.fasthttp.Response.Header.Set(HeaderContentType, ctype[0])
+		c.fasthttp.Response.Header.Set(HeaderContentType, headerValue(ctype[0]))
 	} else {
 		c.fasthttp.Response.Header.SetContentType(MIMEApplicationCBOR)
 	}
@@ -1751,16 +1751,12 @@ func (c *DefaultCtx) SendStreamWriter(streamWriter func(*bufio.Writer)) error {
 
 // Set sets the response's HTTP header field to the specified key, value.
 func (c *DefaultCtx) Set(key, val string) {
-	c.fasthttp.Response.Header.Set(key, val)
+	c.fasthttp.Response.Header.Set(key, headerValue(val))
 }
 
 func (c *DefaultCtx) setCanonical(key, val string) {
-	if strings.IndexByte(val, '\r') >= 0 || strings.IndexByte(val, '\n') >= 0 {
-		// SetCanonical stores the value verbatim; Set replaces CR/LF so the value stays on one header line.
-		c.fasthttp.Response.Header.Set(key, val)
-		return
-	}
-	c.fasthttp.Response.Header.SetCanonical(utils.UnsafeBytes(key), utils.UnsafeBytes(val))
+	// SetCanonical stores the value verbatim: headerValue keeps it on one header line and free of control bytes.
+	c.fasthttp.Response.Header.SetCanonical(utils.UnsafeBytes(key), utils.UnsafeBytes(headerValue(val)))
 }
 
 // Subdomains returns a string slice of subdomains in the domain name of the request.
@@ -1835,7 +1831,7 @@ func (c *DefaultCtx) String() string {
 func (c *DefaultCtx) Type(extension string, charset ...string) Ctx {
 	if len(charset) > 0 {
 		// handler-supplied charset: Set replaces CR/LF, SetContentType would store them verbatim
-		c.fasthttp.Response.Header.Set(HeaderContentType, utils.GetMIME(extension)+"; charset="+charset[0])
+		c.fasthttp.Response.Header.Set(HeaderContentType, headerValue(utils.GetMIME(extension)+"; charset="+charset[0]))
 	} else {
 		c.fasthttp.Response.Header.SetContentType(utils.GetMIME(extension))
 	}
